@@ -718,6 +718,10 @@ func (nfs *Nfs) NFSPROC3_RENAME(args nfstypes.RENAME3args) nfstypes.RENAME3res {
 				inums[2] = frominum
 				inums[3] = toinum
 				inodes = lockInodes(op, inums)
+				if inodes == nil {
+					// one of the inodes was freed meanwhile; start over
+					continue
+				}
 				dipfrom = inodes[0]
 				dipto = inodes[1]
 				from = inodes[2]
@@ -728,6 +732,10 @@ func (nfs *Nfs) NFSPROC3_RENAME(args nfstypes.RENAME3args) nfstypes.RENAME3res {
 				inums[1] = frominum
 				inums[2] = toinum
 				inodes = lockInodes(op, inums)
+				if inodes == nil {
+					// one of the inodes was freed meanwhile; start over
+					continue
+				}
 				dipfrom = inodes[0]
 				dipto = inodes[0]
 				from = inodes[1]
